@@ -156,7 +156,7 @@ def short(v):
 DIRMODES = ["none", "empty", "populated", "missing", "emptyvalue"]
 
 
-def populate_plan(rng):
+def populate_plan(rng, printed=None):
     """files put into a populated target directory before the run: bystanders (must survive untouched) and stale
     files under documented names (must be replaced completely - one is longer than any script)"""
     plan = {"README": b"bystander\n", ".hidden": bytes(rng.randrange(256) for _ in range(rng.randrange(1, 40))),
@@ -165,6 +165,25 @@ def populate_plan(rng):
     stale = rng.sample(sorted(DOCNAME.values()), rng.randrange(1, 4))
     for i, n in enumerate(stale):
         plan[n] = (b"# stale " + n.encode() + b"\n") * (6000 if i == 0 else 1)
+    # stale files whose LENGTH is that of the script about to be written, or one byte off (added after seeded change C19-5:
+    # an "already up to date" shortcut that compared lengths only); one that already holds the right text
+    if printed:
+        shell_of = {v: k for k, v in DOCNAME.items()}
+        for n in rng.sample(sorted(DOCNAME.values()), rng.randrange(1, 4)):
+            t = printed.get(shell_of[n])
+            if not t:
+                continue
+            k = rng.randrange(5)
+            if k == 0:
+                plan[n] = b"#" * (len(t) - 1) + b"\n"
+            elif k == 1:
+                plan[n] = t[:-2] + bytes([t[-2] ^ 1]) + t[-1:]
+            elif k == 2:
+                plan[n] = b"#" * (len(t) - 2) + b"\n"
+            elif k == 3:
+                plan[n] = b"#" * len(t) + b"\n"
+            else:
+                plan[n] = t
     return plan
 
 
@@ -207,13 +226,13 @@ def argv_of(case, base):
     if d is not None:
         d = d.replace("@BASE@", base)
         groups["d"] = {"long": ["--dir", d], "short": ["-d", d], "eq": ["--dir=" + d], "glued": ["-d" + d]}[case["ds"]]
-    argv = ["completions"]
+    argv = list(case.get("globals") or []) + ["completions"]
     for g in case["order"]:
         argv += groups.get(g, [])
     return argv
 
 
-def gen_cases(ctx):
+def gen_cases(ctx, printed=None):
     r = ctx.rng
     cases = []
     vals = [None] + SHELLS
@@ -222,7 +241,7 @@ def gen_cases(ctx):
         for f in vals:
             for p in vals:
                 form = "abs" if dm == "populated" else "rel"
-                cases.append(mk_case(f, p, dm, form, plan=populate_plan(r) if dm == "populated" else None))
+                cases.append(mk_case(f, p, dm, form, plan=populate_plan(r, printed) if dm == "populated" else None))
     # 2. spelling variants of the accepted shapes (and of both/neither), seeded
     forms = ["rel", "dotrel", "slash", "nested", "abs", "dot", "dotdot"]
     envs = [{}, {}, {"NO_COLOR": "1"}, {"TERM": "dumb"}, {"TERM": "xterm-256color"}, {"TERM": "xterm-256color", "NO_COLOR": "1"}]
@@ -236,7 +255,15 @@ def gen_cases(ctx):
         form = r.choice(forms) if dm in ("empty", "populated") else r.choice(["rel", "abs", "nested"])
         order = list(r.choice(list(itertools.permutations("fpd"))))
         cases.append(mk_case(f, p, dm, form, r.choice(["long", "short", "eq", "glued"]), r.choice(["long", "short", "eq", "glued"]),
-                             order, r.choice(envs), "spelling", populate_plan(r) if dm == "populated" else None))
+                             order, r.choice(envs), "spelling", populate_plan(r, printed) if dm == "populated" else None))
+        # global options in front of the subcommand change nothing about what is printed or written (--quiet silences the
+        # diagnostics on standard error, not the script on standard output; added after seeded change C19-4)
+        cases[-1]["globals"] = r.choice([[], [], ["--quiet"], ["-q"], ["--color", "never"], ["--color", "always"], ["--terminal"],
+                                         ["--quiet", "--terminal"], ["--unstable"]])
+    for s_ in SHELLS:
+        for gl in (["--quiet"], ["-q", "--color", "always"]):
+            c = mk_case(s_, None, "none", kind="spelling"); c["globals"] = gl; cases.append(c)
+            c = mk_case(None, s_, "empty", kind="spelling"); c["globals"] = gl; cases.append(c)
     # 3. malformed stream: values that are not one of the five names
     pool = ["", "Bash", "BASH", "zs", "zshh", "bash ", " bash", "power-shell", "PowerShell", "pwsh", "nushell", "tcsh", "sh",
             "ba sh", "bash\n", "fish,zsh", "elvish.", "imdl.bash", "_imdl", "all", "*", "bash/", "баш", "zsh\tbash"]
@@ -257,7 +284,16 @@ def gen_cases(ctx):
         dm = r.choice(["none", "empty", "populated"])
         fs = r.choice(["long", "eq"]) if f == "" else r.choice(["long", "short", "eq", "glued"])
         cases.append(mk_case(f, p, dm, "abs" if dm == "populated" else "rel", fs, "long", ("f", "d", "p"), None, "malformed",
-                             populate_plan(r) if dm == "populated" else None))
+                             populate_plan(r, printed) if dm == "populated" else None))
+    # 4. write faults (added after seeded change C19-6: the all-shells loop reporting only the last write's outcome): a
+    # DIRECTORY sits where a documented file has to go. The command cannot have done what it is asked, so it must not
+    # report success. Judged by the oracle only (the model's filesystem has no such obstacle); kind = "fault".
+    for blocked in sorted(DOCNAME.values()):
+        plan = {"README": b"bystander\n", blocked: None}
+        cases.append(mk_case(None, None, "populated", "rel", kind="fault", plan=plan))
+        sh = next(k for k, v in DOCNAME.items() if v == blocked)
+        cases.append(mk_case(sh, None, "populated", "rel", kind="fault", plan=plan))
+        cases.append(mk_case(None, sh, "populated", "abs", kind="fault", plan=plan))
     return cases
 
 
@@ -274,6 +310,9 @@ def execute(ctx, root, case):
     if case["dirmode"] in ("empty", "populated"):
         os.makedirs(os.path.join(base, drel), exist_ok=True)
         for n, c in (case["plan"] or {}).items():
+            if c is None:
+                os.makedirs(os.path.join(base, drel, n, "in the way"))
+                continue
             with open(os.path.join(base, drel, n), "wb") as f:
                 f.write(c)
         if case["plan"]:
@@ -320,6 +359,16 @@ def oracle(case, res, printed):
     bad = []
     if rc not in (0, 1):
         bad.append("terminated abnormally (rc %d)" % rc)
+    if case["kind"] == "fault":
+        blocked = sorted(n for n, c in (case["plan"] or {}).items() if c is None)
+        if rc == 0:
+            bad.append("exit status 0 although %s in D is a directory, so the script cannot have been written there" % ", ".join(blocked))
+        elif rc == 1 and not err.strip():
+            bad.append("exit status 1 without any diagnostic")
+        gone = sorted(k for k, (a, b) in changed.items() if a is not None and a[0] == "d" and (b is None or b[0] != "d"))
+        if gone:
+            bad.append("a directory was removed or replaced: %s" % gone)
+        return bad
     both = f is not None and p is not None
     neither = f is None and p is None
     one = (f if p is None else p) if (not both and not neither) else None
@@ -425,6 +474,8 @@ def describe(case, res, extra=None):
 
 def plan_enc(v):
     """file content for the replay file: hex, long periodic contents as unit x times"""
+    if v is None:
+        return {"directory": True}
     if len(v) > 200 and b"\n" in v:
         unit = v[:v.index(b"\n") + 1]
         if unit * (len(v) // len(unit)) == v:
@@ -440,7 +491,9 @@ def reproduce(case):
     if dm in ("empty", "populated"):
         pre += "mkdir -p %s; " % d.replace("@BASE@", "$B")
         for n, c in sorted((case.get("plan") or {}).items()):
-            if re.fullmatch(r"[A-Za-z0-9_.-]+", n):
+            if c is None:
+                pre += "mkdir -p %s/%s; " % (d.replace("@BASE@", "$B").rstrip("/"), n)
+            elif re.fullmatch(r"[A-Za-z0-9_.-]+", n):
                 pre += "head -c %d /dev/zero | tr '\\0' x > %s/%s; " % (len(c), d.replace("@BASE@", "$B").rstrip("/"), n)
     one = case["flag"] if case["pos"] is None else (case["pos"] if case["flag"] is None else None)
     post = ""
@@ -455,7 +508,7 @@ def shrink(ctx, root, case, res, bad, printed):
     """an oracle failure on a populated directory: look for a smaller prior content that still fails
     (nothing there at all, else one of the files alone)"""
     plan = case["plan"]
-    for cand in [{}] + [{n: plan[n]} for n in sorted(plan, key=lambda n: len(plan[n]))]:
+    for cand in [{}] + [{n: plan[n]} for n in sorted(plan, key=lambda n: len(plan[n] or b""))]:
         c2 = dict(case, plan=cand or None)
         r2 = execute(ctx, root, c2)
         ctx.cov["evaluations"] += 1
@@ -528,9 +581,13 @@ def body(ctx, root):
     ctx.sample({"printed script sizes": {s: len(printed[s] or b"") for s in SHELLS}})
 
     # ---- the cases
-    cases = gen_cases(ctx)
+    cases = gen_cases(ctx, printed)
     results = lib.pmap(lambda c: execute(ctx, root, c), cases)
-    replies = ctx.model([model_line(c, r) for c, r in zip(cases, results)])
+    midx = [i for i, c in enumerate(cases) if c["kind"] != "fault"]
+    mrep = ctx.model([model_line(cases[i], results[i]) for i in midx])
+    replies = [None] * len(cases)
+    for i, rep in zip(midx, mrep):
+        replies[i] = rep
     shrunk = 0
     for case, res, reply in zip(cases, results, replies):
         ctx.cov["evaluations"] += 1
@@ -540,11 +597,14 @@ def body(ctx, root):
         ctx.count("%s:%s/%s" % (case["kind"], shape, case["dirmode"]))
         ctx.distinct((case["kind"], case["flag"], case["pos"], case["dirmode"], case["dirform"], case["fs"], case["ds"], tuple(case["order"])))
         bad = oracle(case, res, printed)
-        if bad and case["plan"] and shrunk < 3:
+        if bad and case["plan"] and shrunk < 3 and case["kind"] != "fault":
             shrunk += 1
             case, res, bad = shrink(ctx, root, case, res, bad, printed)
         if bad:
             ctx.violation("oracle-failure", "`%s`: %s" % (" ".join(["imdl"] + res["argv"]), "; ".join(bad[:4])), describe(case, res, {"oracle": bad}))
+            continue
+        if case["kind"] == "fault":
+            ctx.count("fault:" + impl_status(res["rc"], res["stderr"]))
             continue
         mc = model_concrete(reply, printed)
         ist = impl_status(res["rc"], res["stderr"])
@@ -611,7 +671,8 @@ def replay(ctx, path):
         return 0
     ctx.need_rust(); ctx.need_runner()
     case = dict(c["case"])
-    case["plan"] = {k: bytes.fromhex(v["hex"]) * v.get("times", 1) for k, v in (c.get("plan") or {}).items()} or None
+    case["plan"] = {k: (None if v.get("directory") else bytes.fromhex(v["hex"]) * v.get("times", 1))
+                    for k, v in (c.get("plan") or {}).items()} or None
     root = tempfile.mkdtemp(prefix="c19-replay-")
     try:
         printed = {}
